@@ -64,6 +64,9 @@ func VerifC13Teardown() {
 	}
 	nCallers := vrt_Choose("callers", 3)
 	script := vrt_Choose("script", 5)
+	// the first caller may ask for no timeout at all (negative duration): only the terminal's
+	// response or its disconnect can end that call
+	noTimer := nCallers > 0 && vrt_Choose("firstCallerWithoutTimeout", 2) == 1
 	vrt_Sched(k)
 	cmds := []uint16{0x8104, 0x8801}
 	res := make([]*Message, nCallers)
@@ -71,7 +74,11 @@ func VerifC13Teardown() {
 	for i := 0; i < nCallers; i++ {
 		i := i
 		vrt_Go(func() {
-			res[i] = s.sm.write(NewActiveMessage(key, consts.JT808CommandType(cmds[i]), []byte{byte(i)}, time.Duration(1-i)*1500*time.Millisecond))
+			d := time.Duration(1-i) * 1500 * time.Millisecond
+			if i == 0 && noTimer {
+				d = -1
+			}
+			res[i] = s.sm.write(NewActiveMessage(key, consts.JT808CommandType(cmds[i]), []byte{byte(i)}, d))
 			done[i] = true
 		})
 	}
@@ -105,6 +112,7 @@ func VerifC13Teardown() {
 		vrt_ConnEOF(s.conn)
 		vrt_Yield()
 	}
+	vrt_Cover("caller-without-timeout", noTimer)
 	vrt_Cover("two-callers", nCallers == 2)
 	vrt_Cover("close-with-command-outstanding", nCallers > 0 && script == 0)
 	vrt_Cover("response-then-close", script == 1)
